@@ -203,9 +203,11 @@ func (s *Server) goLive(
 			lb.cond.L.Unlock()
 			var msgs []string
 			func() {
-				// safely lock the fence because we are outside the main loop
-				s.mu.RLock()
-				defer s.mu.RUnlock()
+				// lock the fence because we are outside the main loop. This must
+				// be the write lock: matching a fence connects and disconnects
+				// the object in the server-wide group trees.
+				s.mu.Lock()
+				defer s.mu.Unlock()
 				msgs = FenceMatch("", sw, fence, nil, details)
 			}()
 			for _, msg := range msgs {
